@@ -46,6 +46,7 @@ def spawn_all(pid, seed, tier, hashseeds, count, workers, workdir, repo, wall_ca
             errf = open(os.path.join(workdir, "w%d.err" % j), "w")
             env = _env(hs, repo)
             env["VERIF_WALL_CAP"] = str(wall_cap)
+            env["VERIF_BUSY_FILE"] = outf + ".busy"
             p = subprocess.Popen([PY, "-m", "sim.worker", pid, str(seed), str(hs), tier, "0", str(count), outf],
                                  cwd=VERIF, env=env, stdout=errf, stderr=errf)
             running.append((j, hs, p, outf, errf))
@@ -54,7 +55,8 @@ def spawn_all(pid, seed, tier, hashseeds, count, workers, workdir, repo, wall_ca
         for j, hs, p, outf, errf in running:
             rc = p.poll()
             if rc is None:
-                if time.time() > deadline:
+                # a worker that is confirming a wall alarm under the line-event budget gets the time to finish it
+                if time.time() > deadline + (1500 if os.path.exists(outf + ".busy") else 0):
                     p.kill()
                     errors.append("worker hashseed=%d exceeded the wall cap (HARNESS-TIMEOUT)" % hs)
                 else:
